@@ -10,7 +10,8 @@
  * sequential result.
  * -DSCEN=1 encode(shared) || encode(shared)            2 encode(shared) || destroy(own, listed first)
  *        3 create RS || create RS (first ever)        4 create XOR || create XOR
- *        5 encode(shared RS) || create+destroy own RS  6 destroy own RS || encode(shared RS) */
+ *        5 encode(shared RS) || create+destroy own RS  6 destroy own RS || encode(shared RS)
+ *        7 destroy own || destroy own (two other instances; a third, shared one must stay registered) */
 #include "vh.h"
 #include "erasurecode.h"
 #include "erasurecode_backend.h"
@@ -62,6 +63,8 @@ static void op_b(void)
 #elif SCEN == 4
     res_b_desc = mk(EC_BACKEND_FLAT_XOR_HD, 3, 3, 3);
     rc_b = res_b_desc > 0 ? 0 : res_b_desc;
+#elif SCEN == 7
+    rc_b = liberasurecode_instance_destroy(own_b);
 #elif SCEN == 5
     res_b_desc = mk(EC_BACKEND_LIBERASURECODE_RS_VAND, 1, 1, 1);
     rc_b = res_b_desc > 0 ? liberasurecode_instance_destroy(res_b_desc) : res_b_desc;
@@ -96,6 +99,12 @@ int main(void)
     own_a = mk(EC_BACKEND_LIBERASURECODE_RS_VAND, 1, 1, 1);
     ASSUME(own_a > 0);
 #endif
+#if SCEN == 7
+    shared = mk(EC_BACKEND_FLAT_XOR_HD, 3, 3, 3);
+    own_a = mk(EC_BACKEND_FLAT_XOR_HD, 3, 3, 3);
+    own_b = mk(EC_BACKEND_FLAT_XOR_HD, 3, 3, 3);      /* list order: own_b, own_a, shared (neighbours) */
+    ASSUME(shared > 0 && own_a > 0 && own_b > 0);
+#endif
     env_yield_hook = hook;
     if (yield_at == 0) { fired = 1; in_b = 1; op_b(); in_b = 0; }
     /* A's operation */
@@ -108,7 +117,7 @@ int main(void)
 #elif SCEN == 4
     res_a_desc = mk(EC_BACKEND_FLAT_XOR_HD, 3, 3, 3);
     rc_a = res_a_desc > 0 ? 0 : res_a_desc;
-#elif SCEN == 6
+#elif SCEN == 6 || SCEN == 7
     rc_a = liberasurecode_instance_destroy(own_a);
 #endif
     if (!fired) { fired = 1; in_b = 1; op_b(); in_b = 0; }
@@ -122,6 +131,12 @@ int main(void)
     CHECK(enc_check(res_a_desc, src_b) == 0 && enc_check(res_b_desc, src_a) == 0, "instances created concurrently are fully initialised");
 #endif
     liberasurecode_instance_destroy(res_a_desc); liberasurecode_instance_destroy(res_b_desc);
+#endif
+#if SCEN == 7
+    CHECK(liberasurecode_backend_instance_get_by_desc(own_a) == NULL && liberasurecode_backend_instance_get_by_desc(own_b) == NULL, "destroyed instances still registered");
+    CHECK(liberasurecode_backend_instance_get_by_desc(shared) != NULL, "concurrent destroys of other instances unregistered a third instance");
+    CHECK(liberasurecode_get_minimum_encode_size(shared) == 12, "surviving instance works");
+    CHECK(liberasurecode_instance_destroy(shared) == 0, "destroy shared");
 #endif
 #if SCEN == 1 || SCEN == 2 || SCEN == 5 || SCEN == 6
     CHECK(enc_check(shared, src_b) == 0, "shared instance still works afterwards");
